@@ -12,6 +12,7 @@ Good(ev) ==
              \/ ev.op = "Lookup"    /\ Lookup(a.id)
              \/ ev.op = "Remove"    /\ Remove(a.id)
              \/ ev.op = "Destroy"   /\ Destroy
+             \/ ev.op = "Search"    /\ Search(a.obj)
              \/ ev.op = "Burn"      /\ Burn /\ a.from = next
           /\ ObsOK(out', o)
 TraceInit == Init /\ l = 1 /\ TLCSet(1, 1)
